@@ -280,7 +280,12 @@ fn mutate(c: &mut Case<'_>, req: &mut Req, signed: &[String]) -> Option<String> 
 }
 
 fn judge(c: &mut Case<'_>, req: &Req, class: &str, source: &str) -> CaseResult {
-    let (sig_verdict, parsed) = match sigv4::verify_presigned(req, &secret_of, None) {
+    judge_on(c, req, class, source, None)
+}
+
+/// `authority`: the request is sent in HTTP/2 form - no Host header, the signed `host` value is the :authority it reaches
+fn judge_on(c: &mut Case<'_>, req: &Req, class: &str, source: &str, authority: Option<&str>) -> CaseResult {
+    let (sig_verdict, parsed) = match sigv4::verify_presigned(req, &secret_of, authority) {
         Ok(x) => x,
         Err(e) => return discard(format!("reference cannot read the request: {e}")),
     };
@@ -298,7 +303,16 @@ fn judge(c: &mut Case<'_>, req: &Req, class: &str, source: &str) -> CaseResult {
     let want_accept = sig_verdict.accepted() && win == Some(Window::Inside);
     c.label(if want_accept { "ref:accept" } else { "ref:reject" });
     c.set_sample(|| json!({"source": source, "alteration": class, "request": req.render(), "signature_verdict": format!("{sig_verdict:?}"), "window": format!("{win:?}")}));
-    let out = ENV.with(|env| run_req(env, req, None, false)).map_err(crate::engine::Stop::Discard)?;
+    let out = match authority {
+        Some(a) => {
+            let mut wire = req.clone();
+            wire.path = format!("http://{a}{}", wire.path);
+            c.label(if a.contains(':') { "http2:authority-with-port" } else { "http2:authority-without-port" });
+            ENV.with(|env| run_req(env, &wire, None, true))
+        }
+        None => ENV.with(|env| run_req(env, req, None, false)),
+    }
+    .map_err(crate::engine::Stop::Discard)?;
     if let Some(e) = &out.transport_error {
         return Err(c.fail("transport-error", e.clone()));
     }
@@ -353,6 +367,14 @@ fn reference_case(c: &mut Case<'_>) -> CaseResult {
     let signer = Signer { access_key: ak.into(), secret: sk.into(), region: (*c.t.pick(&["us-east-1", "eu-central-1"])).into(), service: "s3".into(), date16: now_date16(now_off) };
     let mut req = base.req.clone();
     req.headers.retain(|(n, _)| n != "content-length");
+    // one case in eight travels in HTTP/2 form, to an authority with or without a port
+    let http2 = c.t.chance(32);
+    let authority: &str = if http2 { *c.t.pick(&["s3.example.test", "s3.example.test:8014", "localhost:9000", "127.0.0.1:8014"]) } else { "s3.example.test" };
+    if http2 {
+        for h in req.headers.iter_mut().filter(|(n, _)| n == "host") {
+            h.1 = authority.to_owned();
+        }
+    }
     let signed_extra: Vec<String> = base.signed_extra.clone();
     if c.t.chance(40) {
         // temporary credentials: the session token travels as a signed query parameter
@@ -374,7 +396,24 @@ fn reference_case(c: &mut Case<'_>) -> CaseResult {
     if class != "honest" || base.feat.query_pairs >= 1 {
         c.nontrivial();
     }
-    c.fp(&(&class, expires, now_off.signum(), req.render()));
+    c.fp(&(&class, expires, now_off.signum(), http2, req.render()));
+    if http2 {
+        // the Host header does not exist in HTTP/2: what was signed as `host` is the authority; the request may also
+        // reach another authority than the signed one (then it must be refused)
+        let signed_host = req.header("host").map(str::to_owned);
+        req.headers.retain(|(n, _)| n != "host");
+        let mut class = class;
+        let mut sent_to = signed_host.clone().unwrap_or_else(|| authority.to_owned());
+        if class == "honest" && c.t.chance(48) {
+            sent_to = match sent_to.split_once(':') {
+                Some((h, _)) if c.t.bool() => h.to_owned(),
+                Some((h, p)) => format!("{h}:{}", if p == "8014" { "8015" } else { "8014" }),
+                None => format!("{sent_to}:8014"),
+            };
+            class = "mut:authority".to_owned();
+        }
+        return judge_on(c, &req, &class, "reference", Some(&sent_to));
+    }
     judge(c, &req, &class, "reference")
 }
 
